@@ -2,6 +2,7 @@
 package main
 
 import (
+	"encoding/json"
 	"fmt"
 	"os"
 	"strconv"
@@ -54,6 +55,8 @@ func main() {
 		c := core.Lookup(os.Args[2])
 		sig, detail := c.Exec(os.Args[3])
 		fmt.Fprintf(os.Stderr, "sig=%q\ndetail=%s\n", sig, detail)
+		rb, _ := json.Marshal(map[string]string{"Sig": sig, "Detail": detail})
+		fmt.Fprintf(os.Stderr, "\x00EXEC-RESULT\x00%s", rb)
 	case "selftest":
 		os.Exit(checks.SelftestMain())
 	case "list":
